@@ -148,6 +148,11 @@ Fixpoint parse_swaps (j : nat) (cells : list str) : option (list (nat * nat * na
       else parse_swaps (S j) r
   end.
 
+(* while values and values[-1] == '': values = values[:-1] *)
+Fixpoint lstrip_empty (l : list str) : list str :=
+  match l with [] => [] | x :: r => if nullb x then lstrip_empty r else l end.
+Definition rstrip_empty (l : list str) : list str := rev (lstrip_empty (rev l)).
+
 (* _list2msa(lines, header=False, ids=True); string ids and the MERGE / COMPLEX lines are not modelled *)
 Fixpoint list2msa (lines : list (list str)) (a : msa_read) : res msa_read :=
   match lines with
@@ -169,7 +174,9 @@ Fixpoint list2msa (lines : list (list str)) (a : msa_read) : res msa_read :=
                   end
                 else if str_eqb k s_COMPLEX || str_eqb k s_MERGE then list2msa rest a
                 else if str_eqb (lower k) s_consensus then
-                  list2msa rest (mk_msa_read (r_ids a) (r_taxa a) (r_alm a) (r_seqs a) (r_local a) (r_swaps a) (Some vals))
+                  (* values = line[idx+1:]; the CONSENSUS line loses the empty cells msa2str padded it with (1c54340) *)
+                  list2msa rest (mk_msa_read (r_ids a) (r_taxa a) (r_alm a) (r_seqs a) (r_local a) (r_swaps a)
+                                             (Some (if str_eqb k s_CONSENSUS then rstrip_empty vals else vals)))
                 else list2msa rest a                                (* d[line[idx].lower()] = ...: 'columnid' etc. *)
             end
           else
@@ -238,7 +245,8 @@ Definition msa_okb (m : msa) : bool :=
   && swaps_okb 0 n (m_swaps m)
   && match m_cons m with
      | None => true
-     | Some c => (length c =? n)%nat && forallb cons_seg_okb c        (* one consensus segment per column *)
+     | Some c => (1 <=? length c)%nat && (length c <=? n)%nat && forallb cons_seg_okb c
+                 (* a non-empty consensus, not longer than the alignment (msa2str raises on a longer one) *)
      end.
 
 (* what a block must come back as *)
@@ -278,7 +286,8 @@ Section Rebuild.
     | Some _ => cell_strs (get_col cols c_alignment r)
     | None => cell_strs (get_col cols c_tokens r)
     end.
-  Definition members (k : Z) : list row := flat_map (Sel k) taxa.
+  (* tmp = the cells of etd[k] in doculect order; seqids += sorted(t)  (246780d: the words of one doculect in id order) *)
+  Definition members (k : Z) : list row := flat_map (fun t => isort id_leb (Sel k t)) taxa.
   Definition doculect_of (r : row) : str := match get_col cols s_doculect r with VStr s => s | _ => [] end.
   (* None: fewer than two words, or the key 0 *)
   Definition rebuild_one (k : Z) : option msa_read :=
@@ -294,18 +303,3 @@ End Rebuild.
 Definition alignments_state (cols : list str) (ref : str) (taxa : list str) (cogids : list Z) (rows : list row)
   : list (Z * msa_read) :=
   rebuild cols (selc cols ref rows) taxa cogids.
-
-(* no cognate set has, inside one doculect, words for two different concepts (the writer groups the rows by
-   concept: such words would change their relative order) *)
-Definition same_groupb (cols : list str) (ref : str) (x y : row) : bool :=
-  match cell_int (get_col cols ref x), cell_int (get_col cols ref y) with
-  | Some a, Some b => a =? b
-  | _, _ => false
-  end
-  && match get_col cols s_doculect x, get_col cols s_doculect y with
-     | VStr s, VStr t => str_eqb s t
-     | _, _ => false
-     end.
-Definition no_crossb (cols : list str) (ref : str) (rows : list row) : bool :=
-  forallb (fun x => forallb (fun y => negb (same_groupb cols ref x y)
-                                      || cell_eqb (get_col cols s_concept x) (get_col cols s_concept y)) rows) rows.
